@@ -129,6 +129,34 @@ def run(tier):
                     report.fail({"site": "root-anomer", "kind": "suffix-vs-option", "suffix": "-", "option": v, "root": "grammar-residue"},
                                 {"glycan": txt, "root_orientation": v, "observed": got, "expected_same_as": want,
                                  "problem": "anomer given by option differs from the same anomer given by suffix"})
+    # (v) every cyclic library entry as reducing end, bare and D-/L- prefixed: the declared forms differ from the
+    #     undeclared one in exactly one centre (and from each other there)
+    names_ = []
+    for rec in orc.drv.call("librows").split("\x1f"):
+        t_, key_, name_, cfg_, iso_, lac_, smi_ = rec.split("\x1e")
+        if t_ in ("p", "f") and cfg_ == "0" and name_ not in ("Unk",):
+            names_.append(name_ + t_)
+    names_ = sorted(set(names_))
+    if tier == "quick":
+        names_ = r.sample(names_, 24)
+    lreqs, lmeta = [], []
+    for nm in names_:
+        for pre in (("",) if tier == "quick" else ("", "D-", "L-")):
+            for sfx in ("", " a", " b"):
+                lreqs.append({"iupac": pre + nm + sfx, "kw": {}}); lmeta.append((pre + nm, sfx.strip()))
+    ltab = {m: o["smiles"] for m, o in zip(lmeta, C.run_impl_parallel("convert_many", lreqs))}
+    n_lib = 0
+    for nm in sorted(set(m[0] for m in lmeta)):
+        pl_, a_, b_ = ltab[(nm, "")], ltab[(nm, "a")], ltab[(nm, "b")]
+        if not (pl_ and a_ and b_):
+            continue
+        n_lib += 1
+        report.case("library-end:" + nm, False)
+        pa, pb, pab = orc.profiles(a_, pl_), orc.profiles(b_, pl_), orc.profiles(a_, b_)
+        if not (any(len(p) == 1 and p[0][1] == "left" for p in pa) and any(len(p) == 1 and p[0][1] == "left" for p in pb)
+                and any(len(p) == 1 and p[0][1] == "opp" for p in pab)):
+            report.fail({"site": "root-anomer", "kind": "not-exactly-one-centre", "root": "library-entry"},
+                        {"glycan": nm, "a": a_, "b": b_, "undeclared": pl_, "profiles": {"a_vs_none": pa[:3], "b_vs_none": pb[:3], "a_vs_b": pab[:3]}})
     # objects whose SMILES is assembled lazily (tree_only=True; full=False with an undetermined part)
     for root in (ends[:8] if tier == "quick" else ends):
         poss = T.RES[root][1] if root in T.RES else extra_pos[root]
@@ -159,7 +187,7 @@ def run(tier):
                     {"no_failing_input": True, "what_no_longer_checks": broken, "theorems": names_thm})
     report.assumptions = ["A-rdkit-write: a SMILES rooted at another atom denotes the same molecule (decided per input by Iso.same_molecule)"]
     extra = {"rule": "glycans x root anomer {none,a,b} by suffix x option {n,a,b} x start in {1..9,100,0,-1,42,10,1000} (quick: 7 of them); plus every reducing-end residue of the generator's vocabulary and further ring forms x every free position x anomer by option x start on the linkage position; distinct glycans, non-trivial = at least 2 residues",
-             "conversions": len(reqs) + len(sreqs), "reducing_end_sweep": swept, "grammar_residue_checks": n_gram, "print_assumptions": res.assumptions.get(f"Props/{PROP}.v", "").strip().splitlines()[-4:]}
+             "conversions": len(reqs) + len(sreqs), "reducing_end_sweep": swept, "library_reducing_ends": n_lib, "grammar_residue_checks": n_gram, "print_assumptions": res.assumptions.get(f"Props/{PROP}.v", "").strip().splitlines()[-4:]}
     return report.finish("proof", ob, dis, names_thm, trusted=C.TRUSTED, extra=extra)
 
 
